@@ -277,6 +277,55 @@ def punct_identity():
     save("punct_identity", ["C02", "C12", "C20", "C11"], steps)
 
 
+def content_sizes():
+    """content lengths around the buffer sizes a reader or writer may use (bufio 4096, 32 KiB copy buffers, 64 KiB, 1 MiB),
+    compressible and incompressible, stored, read back by id, restored and reset"""
+    steps = head()
+    sizes = [0, 1, 2, 31, 32, 33, 4095, 4096, 4097, 8191, 8192, 8193, 32767, 32768, 32769, 65535, 65536, 65537, 131072, 1048575, 1048576, 1048577]
+    names = []
+    for i, n in enumerate(sizes):
+        p = "s%07d.%s" % (n, "txt" if i % 2 == 0 else "bin")
+        names.append(p)
+        steps.append({"ev": "write", "p": p, "gen": {"class": "text" if i % 2 == 0 else "big_random", "size": n, "seed": 100 + i}, "old": False})
+    steps.append({"ev": "add", "paths": ["."]})
+    steps.append({"ev": "commit", "msg": "sizes"})
+    for k in range(0, len(sizes), 3):
+        steps.append({"ev": "catfile", "flag": "p", "idref": "blob:%d" % k})
+    steps.append({"ev": "hashobject", "paths": names[3:9]})
+    for p in names[::2]:
+        steps.append(w(p, "short\n"))
+    steps.append({"ev": "status"})
+    steps.append({"ev": "restore", "paths": names[::4]})
+    steps.append({"ev": "add", "paths": names[2::4]})
+    steps.append({"ev": "commit", "msg": "shorter"})
+    steps.append({"ev": "reset", "mode": "hard", "arg": esc("HEAD@{1}")})
+    steps.append({"ev": "status"})
+    steps.append({"ev": "lsfiles"})
+    save("content_sizes", ["C01", "C08", "C09", "C13", "C03"], steps, tz=0)
+
+
+def reflog_100():
+    """more than a hundred reflog records (cheaply, by switching between two branches): positions with three digits"""
+    steps = head()
+    steps.append(w("a", "0"))
+    steps.append({"ev": "add", "paths": ["a"]})
+    steps.append({"ev": "commit", "msg": "first"})
+    steps.append({"ev": "switchc", "name": "other"})
+    steps.append(w("a", "1"))
+    steps.append({"ev": "add", "paths": ["a"]})
+    steps.append({"ev": "commit", "msg": "second"})
+    for i in range(52):
+        steps.append({"ev": "switch", "name": "main"})
+        steps.append({"ev": "switch", "name": "other"})
+    steps.append({"ev": "reflog"})
+    for arg, mode in (("HEAD@{100}", "soft"), ("HEAD@{99}", "soft"), ("HEAD@{107}", "soft"), ("HEAD@{120}", "soft"), ("HEAD@{101}", "mixed"),
+                      ("HEAD@{1000}", "soft"), ("HEAD@{010}", "soft"), ("HEAD@{111}", "hard")):
+        steps.append({"ev": "reset", "mode": mode, "arg": esc(arg)})
+    steps.append({"ev": "reflog"})
+    steps.append({"ev": "log", "n": 3})
+    save("reflog_100", ["C08", "C11", "C18"], steps)
+
+
 if __name__ == "__main__":
     name_lengths()
     big_index()
@@ -286,3 +335,5 @@ if __name__ == "__main__":
     punct_names()
     crlf_ignore()
     punct_identity()
+    content_sizes()
+    reflog_100()
